@@ -521,6 +521,22 @@ def gen_hist_case(rng, seeds8, parsed):
     return "hist %d %d %s %s" % (flags, max(0, min(cut, len(a))), a.hex(), bytes(b).hex())
 
 
+def progressive_cuts(rng, s, segs):
+    """progressive stream cut inside every scan, right after a scan (+EOI: legal partial script,
+    e.g. DC only), and with scans removed"""
+    out = []
+    sos = [i for i, g in enumerate(segs) if g[1] == 0xDA]
+    for j, i in enumerate(sos):
+        o, m, n = segs[i]
+        nxt = segs[i + 1] if i + 1 < len(segs) else None
+        if nxt and nxt[1] == -1:
+            eo, _, en = nxt
+            out.append((s[:eo + rng.below(en + 1)], "prog-cut-in-scan"))
+            out.append((s[:eo + en] + b"\xff\xd9", "prog-partial-script"))       # first j+1 scans + EOI
+            out.append((s[:eo + rng.below(en + 1)] + b"\xff\xd9", "prog-cut-in-scan-eoi"))
+    return out
+
+
 def gen_blk_case(rng):
     """case line for harness/c01blk.c and the block model"""
     dcb, dcv = STD_DC_BITS, STD_DC_VALS
@@ -551,22 +567,36 @@ def san_signature(err):
         return "%s:%s:%s" % (m.group(1), m.group(2), fn)
     m = re.search(r"([\w./-]+\.[ch]):(\d+):\d+: runtime error: ([^\n]{0,60})", err)
     if m:
-        return "ubsan:%s:%s" % (m.group(1).split("/")[-1], re.sub(r"-?\d+", "N", m.group(3)))
+        fn = re.search(r"#0 0x\w+ in (\w+)", err)
+        return "ubsan:%s:%s:%s" % (m.group(1).split("/")[-1], re.sub(r"-?\d+", "N", m.group(3)), fn.group(1) if fn else "")
     return "crash"
 
 
+MAX_HANGS = 3
+
+
 def run_lines(ctx, exe, lines, what, per_line_timeout=20.0):
-    """feeds the lines; survives crashes of the implementation: the crashing line gets the
-    result None and a violation is recorded, the rest of the batch is re-run."""
+    """feeds the lines; survives crashes and hangs of the implementation: the failing line gets the
+    result None and a violation is recorded, the rest of the batch is re-run.  The harness arms a
+    10 s CPU / 45 s wall watchdog per line (prints TIMEOUT, exits 3); after MAX_HANGS hangs in one
+    run the remaining lines of the call are dropped (the violation is established, a hang must not
+    cost more than about a minute)."""
     res = [None] * len(lines)
     start = 0
     BATCH = 400
+    local_hangs = 0
     while start < len(lines):
+        if local_hangs >= MAX_HANGS or getattr(ctx, "_hangs", 0) >= 2 * MAX_HANGS:
+            ctx.log("%s: %d hangs seen, skipping the remaining %d lines of this family" % (what, max(local_hangs, getattr(ctx, "_hangs", 0)), len(lines) - start))
+            break
         chunk = lines[start:start + BATCH]
         inp = ("\n".join(chunk) + "\n").encode()
-        rc, out, err = sh2([exe], input=inp, timeout=60 + per_line_timeout * 2 + 0.2 * len(chunk), env=ENV)
+        rc, out, err = sh2([exe], input=inp, timeout=90 + 0.25 * len(chunk), env=ENV)
         got = out.decode("utf-8", "replace").split("\n")
         if got and got[-1] == "":
+            got.pop()
+        hung = bool(got) and got[-1] == "TIMEOUT"
+        if hung:
             got.pop()
         ngood = min(len(got), len(chunk))
         for i in range(ngood):
@@ -581,10 +611,17 @@ def run_lines(ctx, exe, lines, what, per_line_timeout=20.0):
             continue
         bad = start + ngood
         res[bad] = None
-        kindtxt = "timed out (no termination within %ds)" % int(60 + per_line_timeout * 2) if rc == -9 else "crashed (rc=%d)" % rc
-        sig = ("timeout:" + lines[bad].split()[0]) if rc == -9 else san_signature(err)
-        ctx.violation("%s: implementation %s: %s" % (what, kindtxt, (re.search(r"(ERROR: \w+Sanitizer[^\n]*|runtime error[^\n]*)", err) or [err[-200:]])[0]),
-                      {"line": lines[bad], "stream_hex": lines[bad].split()[-1] if lines[bad].split() else "", "stderr": err[-4000:]}, signature=sig)
+        if hung or rc == -9:
+            ctx._hangs = getattr(ctx, "_hangs", 0) + 1
+            local_hangs += 1
+            ctx.violation("%s: no termination within the watchdog (10 s CPU / 45 s wall) on a %d-byte input" % (
+                what, len(lines[bad].split()[-1]) // 2 if lines[bad].split() else 0),
+                {"line": lines[bad], "stream_hex": lines[bad].split()[-1] if lines[bad].split() else ""},
+                signature="timeout:" + lines[bad].split()[0])
+        else:
+            sig = san_signature(err)
+            ctx.violation("%s: implementation crashed (rc=%d): %s" % (what, rc, (re.search(r"(ERROR: \w+Sanitizer[^\n]*|runtime error[^\n]*)", err) or [err[-200:]])[0]),
+                          {"line": lines[bad], "stream_hex": lines[bad].split()[-1] if lines[bad].split() else "", "stderr": err[-4000:]}, signature=sig)
         start = bad + 1
     return res
 
@@ -639,6 +676,27 @@ def judge_hist(ctx, line, res):
         ctx.violation("history case took %.0f us of CPU" % float(kv["t"]), {"line": line, "result": res}, signature="time:hist")
 
 
+def judge_crop(ctx, line, res):
+    if res is None:
+        return
+    kv = dict(p.split("=", 1) for p in res.split()[1:] if "=" in p)
+    if kv.get("bad", "0") != "0":
+        ctx.violation("jpeg_crop_scanline region decoded twice into differently pre-filled rows differs at xoffset,width=%s: samples reported "
+                      "as produced were not written (uninitialised output): %s" % (kv.get("first"), res), {"line": line, "result": res},
+                      signature="uninit:crop")
+    if float(kv.get("t", "0")) > 30e6:
+        ctx.violation("crop sweep took %.0f us of CPU" % float(kv["t"]), {"line": line, "result": res}, signature="time:crop")
+
+
+def judge_bq(ctx, line, res):
+    if res is None:
+        return
+    kv = dict(p.split("=", 1) for p in res.split()[1:] if "=" in p)
+    if kv.get("same") != "1":
+        ctx.violation("buffered-image quantisation history run twice (different row pre-fill) differs: uninitialised or non-deterministic "
+                      "output: " + res[:300], {"line": line, "result": res}, signature="uninit:bq")
+
+
 def start_part(l):
     return l.split(" ## ", 1)[1] if " ## " in l else None
 
@@ -683,6 +741,18 @@ def make_seeds(ctx, rng, exe, nseeds):
         else:
             ctx.log("seed not produced:", l, "->", (r or "")[:80])
     return seeds
+
+
+def make_big_seeds(ctx, rng, exe):
+    """valid images wide enough for every crop residue: 4:2:0 / 4:2:2 / 4:4:0 / 4:1:1 / 4:4:4 / gray,
+    baseline, progressive, arithmetic, 12-bit"""
+    lines = ["mk 0 8 2 96 40 0 0 %d 1 0", "mk 0 8 1 80 24 0 0 %d 1 0", "mk 0 8 4 64 48 0 0 %d 1 0", "mk 0 8 5 96 16 0 0 %d 1 0",
+             "mk 0 8 0 56 24 0 0 %d 1 0", "mk 0 8 3 72 24 0 0 %d 1 0", "mk 1 12 2 96 40 0 0 %d 1 0", "mk 2 8 2 96 40 0 0 %d 1 0",
+             "mk 3 8 2 64 32 0 0 %d 1 0", "mk 2 12 1 80 24 0 0 %d 1 0", "mk 0 8 2 67 37 2 1 %d 1 0"]
+    lines = [l % rng.below(1000) for l in lines]
+    res = run_lines(ctx, exe, lines, "seed generation")
+    out = [bytes.fromhex(r[4:]) for r in res if r and r.startswith("jpg ")]
+    return out or [b"\xff\xd8\xff\xd9"]
 
 
 def dec_line(rng, i, data):
@@ -789,6 +859,12 @@ def run(ctx):
             streams.append((bytes(b), "random-overwrite"))
     for i in range(total * 4 // 100):
         streams.append((gen_fastpath(rng), "fastpath-worstcase"))
+    # progressive streams cut inside every scan / partial scripts (smoothing is on by default)
+    progs = [(s2, tag, segs) for (s2, tag, segs) in parsed if tag in ("p2", "p4")]
+    for j in range(ctx.n(10, 60)):
+        if progs:
+            s2, tag, segs = progs[(ctx.seed + j) % len(progs)]
+            streams.extend(progressive_cuts(rng, s2, segs))
     for (s, kind) in streams:
         cases.append(("hdr " + s.hex(), kind))
     seeds8 = [s for s, tag in seeds if tag in ("p0", "p2", "p3", "p4") and b"\xff\xc0\x00" in s or tag in ("p2", "p3", "p4") and (b"\xff\xc2\x00\x11\x08" in s or b"\xff\xc2\x00\x0b\x08" in s or b"\xff\xc9\x00\x11\x08" in s or b"\xff\xca\x00\x11\x08" in s)]
@@ -796,6 +872,24 @@ def run(ctx):
         seeds8 = [s for s, tag in seeds if tag == "p0"]
     for i in range(ctx.n(600, 12000)):
         cases.append((gen_hist_case(rng, seeds8, parsed), "hist"))
+    # crop sweeps (all xoffset residues x merged/fancy upsampling x 1..4 rows per call) and buffered-image
+    # quantisation-mode histories on larger valid images (and a few damaged ones)
+    big = make_big_seeds(ctx, rng, exe)
+    for i in range(ctx.n(160, 3000)):
+        b = big[i % len(big)]
+        if rng.chance(1, 8):
+            bb = bytearray(b)
+            for _ in range(rng.range(1, 3)):
+                bb[rng.range(len(bb) // 2, len(bb) - 1)] ^= 1 << rng.below(8)
+            b = bytes(bb)
+        flags = (i % 2) | (rng.below(2) << 1) | ((i // 2 % 4) << 2) | (rng.below(2) << 4) | ((1 if rng.chance(1, 4) else 0) << 5) | (rng.below(2) << 6) | ((1 if rng.chance(1, 4) else 0) << 7)
+        cases.append(("crop %d %d %s" % (flags, rng.below(100000), b.hex()), "crop"))
+    bqsrc = big + [s2 for (s2, tag, segs) in parsed if tag in ("p0", "p2", "p3", "p4", "p1")]
+    for i in range(ctx.n(300, 6000)):
+        b = bqsrc[i % len(bqsrc)]
+        if rng.chance(1, 6):
+            b = b[:rng.range(len(b) // 2, len(b))]
+        cases.append(("bq %d %s" % (rng.below(1000000), b.hex()), "bq"))
     nblk = ctx.n(1000, 20000)
     for i in range(nblk):
         cases.append((gen_blk_case(rng), "blk"))
@@ -808,6 +902,8 @@ def run_cases(ctx, drv, exe, blk, cases, oracle_every=1):
     blk_cases = [(l, k) for (l, k) in cases if l.startswith("blk ")]
     dec_given = [(l, k) for (l, k) in cases if l.startswith("dec ")]
     hist_cases = [(l, k) for (l, k) in cases if l.startswith("hist ")]
+    crop_cases = [(l, k) for (l, k) in cases if l.startswith("crop ")]
+    bq_cases = [(l, k) for (l, k) in cases if l.startswith("bq ")]
 
     # ---- model side
     mlines = None
@@ -859,6 +955,10 @@ def run_cases(ctx, drv, exe, blk, cases, oracle_every=1):
             data = bytes.fromhex(line[4:].strip()) if len(line) > 4 else b""
             dec_lines.append("dec 0 0 0 0 0 " + data.hex())
             dec_lines.append(dec_line(rng, i, data))
+            if kind.startswith("prog-"):          # block smoothing on: scan-line loop, buffered-image mode, TurboJPEG
+                dec_lines.append("dec 5 64 0 0 0 " + data.hex())
+                dec_lines.append("dec 4 64 0 0 0 " + data.hex())
+                dec_lines.append("dec 1 0 0 0 0 " + data.hex())
             if kind == "fastpath-worstcase":      # every decode entry point that runs the sequential Huffman decoder
                 dec_lines.append("dec 1 %d 0 %d 0 %s" % (rng.choice([0, 6]), rng.below(4), data.hex()))
                 dec_lines.append("dec 3 %d 0 0 0 %s" % (rng.below(8), data.hex()))
@@ -883,6 +983,23 @@ def run_cases(ctx, drv, exe, blk, cases, oracle_every=1):
             ctx.count("hist", 1, (res or "")[:120])
         ctx.cov["history_cases"] = len(hist_cases)
         ctx.cov["history_cases_second_stream_equal_to_fresh_object"] = nsame
+
+    # ---- crop sweeps and buffered-image quantisation histories
+    if crop_cases:
+        cres = run_lines(ctx, exe, [l for l, _ in crop_cases], "jpeg_crop_scanline sweep")
+        for (line, kind), res in zip(crop_cases, cres):
+            judge_crop(ctx, line, res)
+            ctx.count("crop", 1, (res or "")[:80])
+    if bq_cases:
+        bres = run_lines(ctx, exe, [l for l, _ in bq_cases], "buffered-image quantisation-mode history")
+        okp = 0
+        for (line, kind), res in zip(bq_cases, bres):
+            judge_bq(ctx, line, res)
+            if res and re.search(r"\|p\d:a", res):
+                okp += 1
+            ctx.count("bq", 1, (res or "")[:160])
+        ctx.cov["bq_histories"] = len(bq_cases)
+        ctx.cov["bq_histories_with_a_completed_pass"] = okp
 
     # ---- one-block decode: real decode_mcu_slow vs block model
     bdis = 0
